@@ -382,7 +382,7 @@ func guardStateAt(cell *ssa.Alloc, b *ssa.BasicBlock) nilState {
 		}
 	}
 	if last == nil {
-		return nilUnknown
+		return nonNil // `var flag bool`: still the zero value, false
 	}
 	k, ok := constBool(last.Val)
 	if !ok {
@@ -1813,6 +1813,34 @@ func r6VectorMerge(c *RuleCtx) {
 		c.undecidedP(props, "anchor/vecIndexInfo.index", "-", "the struct field holding reconstructed native indexes is found", "no field of type *faiss.IndexImpl in vecIndexInfo")
 		return
 	}
+	// closer methods: methods of the holder that Close their own receiver's index (`(vi *vecIndexInfo) release()`)
+	closers := map[*ssa.Function]bool{}
+	for _, fn := range c.p.ZapFuncs {
+		if fn.Parent() != nil || fn.Signature.Recv() == nil || len(fn.Params) == 0 {
+			continue
+		}
+		if pt, ok := fn.Signature.Recv().Type().Underlying().(*types.Pointer); !ok || !isNamed(pt.Elem(), zapPkgPath, holder.st) {
+			continue
+		}
+		closes, stores := false, false
+		eachInstr(fn, func(_ *ssa.BasicBlock, in ssa.Instruction) {
+			if cs, ok := in.(ssa.CallInstruction); ok {
+				if iv, ok := faissCloseOf(cs); ok {
+					if sn, fld, base, ok := loadedField(iv); ok && sn == holder.st && fld == holder.fld && root(base) == ssa.Value(fn.Params[0]) {
+						closes = true
+					}
+				}
+			}
+			if st, ok := in.(*ssa.Store); ok {
+				if sn, fld, _, ok := fieldOf(st.Addr); ok && sn == holder.st && fld == holder.fld && !isNilConst(st.Val) {
+					stores = true
+				}
+			}
+		})
+		if closes && !stores {
+			closers[fn] = true
+		}
+	}
 	// free routines: zap functions with a []*vecIndexInfo parameter that Close the field of every element
 	freeFns := map[*ssa.Function]bool{}
 	for _, fn := range c.p.ZapFuncs {
@@ -1836,6 +1864,9 @@ func r6VectorMerge(c *RuleCtx) {
 					if sn, fld, _, ok := loadedField(iv); ok && sn == holder.st && fld == holder.fld {
 						closes = true
 					}
+				}
+				if closers[staticCallee(cs)] {
+					closes = true
 				}
 			}
 			if st, ok := in.(*ssa.Store); ok {
@@ -1936,7 +1967,7 @@ func r6VectorMerge(c *RuleCtx) {
 					if !forgot {
 						okAll = false
 					}
-				} else if h := staticCallee(cs); h != nil && freeFns[h] && h != g {
+				} else if h := staticCallee(cs); h != nil && (freeFns[h] || closers[h]) && h != g {
 					visit(h, depth+1)
 				}
 			}
@@ -1996,6 +2027,7 @@ func r6VectorMerge(c *RuleCtx) {
 			evFreed  = 1 << 1
 			evDouble = 1 << 2
 		)
+		var pa *pathAnalysis
 		tr := func(in ssa.Instruction, ev uint64, deferred bool) []uint64 {
 			if st, ok := in.(*ssa.Store); ok {
 				for _, s := range storeSites {
@@ -2015,6 +2047,47 @@ func r6VectorMerge(c *RuleCtx) {
 			if cs, ok := in.(ssa.CallInstruction); ok {
 				f := resolvedCallee(cs)
 				frees := f != nil && freeFns[f]
+				if f != nil && !frees && deferred && f.Parent() != nil && rootParent(f) == rootParent(fn) && pa != nil && pa.cur != nil {
+					// `var freed bool; defer func() { if !freed { freeAll(xs) } }()` with the flag set where the
+					// function frees early: what the deferred closure does depends on the flag at this exit
+					sub := func(in2 ssa.Instruction, ev2 uint64, _ bool) []uint64 {
+						if cs2, ok := in2.(ssa.CallInstruction); ok {
+							if g := staticCallee(cs2); g != nil && freeFns[g] {
+								return []uint64{ev2 | evFreed}
+							}
+						}
+						return nil
+					}
+					if cell, whenUnset, whenSet, ok := errGuardedClosure(f, sub); ok && !isErrorType(derefType(cell.Type())) && guardStateAt(cell, pa.cur) != nilUnknown {
+						var add uint64
+						switch guardStateAt(cell, pa.cur) {
+						case nonNil:
+							add = whenUnset
+						case isNil:
+							add = whenSet
+						}
+						if add&evFreed != 0 {
+							if ev&evFreed != 0 && ev&evStored != 0 {
+								// a second free on this path: harmless only if the routines forget what they closed
+								for g := range freeFns {
+									if !idempotent(g) {
+										return []uint64{ev | evDouble}
+									}
+								}
+							}
+							return []uint64{ev | evFreed}
+						}
+						return nil
+					}
+				}
+				if f != nil && !frees && f.Parent() != nil && rootParent(f) == rootParent(fn) && onceGuardedFree(f, freeFns) {
+					// `freed := false; free := func() { if !freed { freed = true; freeAll(xs) } }`: the first
+					// call frees, later ones do nothing
+					if ev&evFreed != 0 {
+						return nil
+					}
+					return []uint64{ev | evFreed}
+				}
 				if f != nil && !frees && f.Parent() != nil && rootParent(f) == rootParent(fn) {
 					// a local closure that runs the free routine on every path (`abort`)
 					var freeAt []*ssa.BasicBlock
@@ -2048,7 +2121,7 @@ func r6VectorMerge(c *RuleCtx) {
 			}
 			return nil
 		}
-		pa := newPathAnalysis(fn, tr)
+		pa = newPathAnalysis(fn, tr)
 		pa.run(0)
 		labels := map[string]int{}
 		for _, ret := range returnsOf(fn) {
@@ -2074,6 +2147,73 @@ func r6VectorMerge(c *RuleCtx) {
 				"the free routine can run twice on a path to this exit (double Close of a native index)", props, exitWitness(c, ret, v))
 		}
 	}
+}
+
+// onceGuardedFree: closure cl is `if !flag { flag = true; <a free routine> }` on a captured bool flag that
+// is false until this closure sets it (its only other store is the initial false).
+func onceGuardedFree(cl *ssa.Function, freeFns map[*ssa.Function]bool) bool {
+	if len(cl.Blocks) == 0 {
+		return false
+	}
+	entry := cl.Blocks[0]
+	iff, ok := entry.Instrs[len(entry.Instrs)-1].(*ssa.If)
+	if !ok {
+		return false
+	}
+	cond, neg := iff.Cond, false
+	if u, ok := cond.(*ssa.UnOp); ok && u.Op == token.NOT {
+		cond, neg = u.X, true
+	}
+	u, ok := cond.(*ssa.UnOp)
+	if !ok || u.Op != token.MUL || !isBoolType(u) {
+		return false
+	}
+	fv, ok := u.X.(*ssa.FreeVar)
+	if !ok {
+		return false
+	}
+	cell := cellOf(fv)
+	if cell == nil {
+		return false
+	}
+	// the branch taken while the flag is false
+	first := entry.Succs[1]
+	if neg {
+		first = entry.Succs[0]
+	}
+	setsFlag, frees := false, false
+	for _, b := range cl.Blocks {
+		if !(b == first || first.Dominates(b)) {
+			continue
+		}
+		for _, in := range b.Instrs {
+			if st, ok := in.(*ssa.Store); ok && st.Addr == ssa.Value(fv) {
+				if k, ok := constBool(st.Val); ok && k {
+					setsFlag = true
+				}
+			}
+			if cs, ok := in.(ssa.CallInstruction); ok {
+				if g := staticCallee(cs); g != nil && freeFns[g] {
+					if _, isDefer := in.(*ssa.Defer); !isDefer {
+						frees = true
+					}
+				}
+			}
+		}
+	}
+	if !setsFlag || !frees {
+		return false
+	}
+	// every other store to the flag is the initial false
+	for _, st := range cellStores(cell) {
+		if st.Parent() == cl {
+			continue
+		}
+		if k, ok := constBool(st.Val); !ok || k {
+			return false
+		}
+	}
+	return true
 }
 
 // --- R6e: every produced native index is released or handed over ------------
